@@ -339,9 +339,14 @@ int uriTestMemoryManager(UriMemoryManager * memory) {
 	for (index = 0; index < mallocSize; index++) {
 		buffer[index] = '\xF3';
 	}
-	buffer = memory->realloc(memory, buffer, reallocSize);
-	if (buffer == NULL) {
-		return URI_ERROR_MEMORY_MANAGER_FAULTY;
+	{
+		char * const moved = memory->realloc(memory, buffer, reallocSize);
+		if (moved == NULL) {
+			/* NOTE: A failed realloc leaves the old block alone: it is still ours */
+			memory->free(memory, buffer);
+			return URI_ERROR_MEMORY_MANAGER_FAULTY;
+		}
+		buffer = moved;
 	}
 	for (index = 0; index < mallocSize; index++) {  /* previous content? */
 		if (buffer[index] != '\xF3') {
@@ -385,10 +390,15 @@ int uriTestMemoryManager(UriMemoryManager * memory) {
 	for (index = 0; index < mallocSize; index++) {
 		buffer[index] = '\xF7';
 	}
-	buffer = memory->reallocarray(memory, buffer, reallocarrayNmemb,
-			reallocarraySize);
-	if (buffer == NULL) {
-		return URI_ERROR_MEMORY_MANAGER_FAULTY;
+	{
+		char * const moved = memory->reallocarray(memory, buffer,
+				reallocarrayNmemb, reallocarraySize);
+		if (moved == NULL) {
+			/* NOTE: A failed reallocarray leaves the old block alone: it is still ours */
+			memory->free(memory, buffer);
+			return URI_ERROR_MEMORY_MANAGER_FAULTY;
+		}
+		buffer = moved;
 	}
 	for (index = 0; index < mallocSize; index++) {  /* previous content? */
 		if (buffer[index] != '\xF7') {
